@@ -396,6 +396,7 @@ impl World {
     pub fn start_node(&mut self, i: usize, ctx: &mut Ctx) -> bool {
         let disk = self.nodes[i].disk.clone();
         disk.log_unavailable_once.set(false);
+        disk.snap_busy_once.set(false);
         disk.fetch_ctx.set(None);
         let mut cfg = make_config(self.cfg(i), disk.app.applied);
         if self.nodes[i].created && self.cfg(i).pre_vote_off_on_restart {
@@ -832,6 +833,9 @@ impl World {
                         }
                     }
                 }
+                if u.snapbusy < c.snapbusy && !l.rn.store().snap_busy_once.get() && l.rn.store().first() > 1 {
+                    out.push(Action::ArmSnapBusy(id));
+                }
                 if u.setcaps < c.setcaps {
                     for (pid, _) in r.prs().iter() {
                         if *pid != r.id {
@@ -976,6 +980,7 @@ impl World {
             | Action::RequestSnap(i)
             | Action::SetCap(i, _, _)
             | Action::Fetched(i)
+            | Action::ArmSnapBusy(i)
             | Action::ApplyNext(i)
             | Action::Compact(i)
             | Action::Ready(i, Cut::None) => i,
@@ -1323,6 +1328,15 @@ impl World {
                     rn.raft.adjust_max_inflight_msgs(to as u64, v as usize)
                 })
                 .is_some()
+            }
+            Action::ArmSnapBusy(id) => {
+                let i = id as usize - 1;
+                if charge {
+                    self.used.snapbusy += 1;
+                }
+                let l = self.nodes[i].live.as_mut().unwrap();
+                l.rn.store().snap_busy_once.set(true);
+                true
             }
             Action::ArmFetch(id) => {
                 let i = id as usize - 1;
@@ -1936,6 +1950,7 @@ pub fn write_store(w: &mut W, s: &Store) {
     w.cs(&s.app.conf);
     w.u64(s.app.sm);
     w.b(s.log_unavailable_once.get());
+    w.b(s.snap_busy_once.get());
     w.b(s.fetch_ctx.get().is_some());
 }
 
